@@ -173,6 +173,30 @@ def inject_stream_or_rng(case, g):
     case["nodes"] = nodes
 
 
+def near_twin(nodes, g):
+    """The same pipeline with every sweep expression's + / * operands permuted (or, without such an expression, None)."""
+    import copy
+
+    from vlib import rewrite as rw
+
+    twin = copy.deepcopy(nodes)
+    changed = False
+    for n in twin:
+        blk = (n.get("derive") or {}).get("parameter_sweep") if isinstance(n.get("derive"), dict) else None
+        if not isinstance(blk, dict):
+            continue
+        for p, src in list((blk.get("parameters") or {}).items()):
+            if isinstance(src, str):
+                try:
+                    new = rw.permute_expr(src, g.rng)
+                except SyntaxError:
+                    new = None
+                if new and new != src:
+                    blk["parameters"][p] = new
+                    changed = True
+    return twin if changed else None
+
+
 def check_case(run, case, detail, history, g, scratch):
     from vlib import account, refmodel as rm, tracecheck as tc
 
@@ -230,6 +254,13 @@ def check_case(run, case, detail, history, g, scratch):
         else:
             account.real_run(h["nodes"], h["data"], h["ctx"], scratch=scratch)
         run.count("history_runs")
+    # a NEAR TWIN of this configuration is traced in between: the same pipeline with the operands of + / * in its sweep
+    # expressions permuted (same signature, other text) and, separately, with another value of one node parameter
+    twin = near_twin(nodes, g)
+    if twin is not None:
+        ttr = tc.traced_run(twin, data, materialise(ctx_spec), detail=detail, mode="file", scratch=scratch)
+        shutil.rmtree(ttr.tdir, ignore_errors=True)
+        run.count("history_runs_near_twin")
     traced2, recs2 = real(detail)
     n1 = [tc.normalise(r) for r in recs1 or []]
     n2 = [tc.normalise(r) for r in recs2 or []]
@@ -348,6 +379,126 @@ def _get(x, path):
     return cur
 
 
+CHILD_CODE = "import sys; sys.path.insert(0, {verif!r}); from checks import c10; c10.child_main(sys.argv[1], sys.argv[2], sys.argv[3])"
+
+
+def _from_json_ctx(ctx):
+    return {k: (tuple(v) if isinstance(v, list) and v and v[0] in ("__hostile__", "__iter__") else v) for k, v in ctx.items()}
+
+
+def _jsonable(x) -> bool:
+    import json
+
+    try:
+        return json.loads(json.dumps(x)) is not None
+    except Exception:
+        return False
+
+
+def child_main(spec_path, out_path, order):
+    """Fresh interpreter: trace the listed configurations in the given order -> normalised traces of the 'b' items."""
+    import json
+
+    boot.boot()
+    from vlib import tracecheck as tc
+
+    with open(spec_path, encoding="utf-8") as fh:
+        pairs = json.load(fh)
+    scratch = tempfile.mkdtemp(prefix="verif-c10-child-")
+    out = {}
+    try:
+        for i, p in enumerate(pairs):
+            todo = [("a", p["twin"]), ("b", p["nodes"])] if order == "twin_first" else [("b", p["nodes"])]
+            for tag, nodes in todo:
+                tr = tc.traced_run(nodes, p["data"], materialise(_from_json_ctx(p["ctx"])), detail=p["detail"], mode="file", scratch=scratch)
+                if tag == "b":
+                    out[str(i)] = [tc.normalise(r) for r in tr.records]
+                shutil.rmtree(tr.tdir, ignore_errors=True)
+    finally:
+        shutil.rmtree(scratch, ignore_errors=True)
+    with open(out_path, "w", encoding="utf-8") as fh:
+        json.dump(out, fh, default=repr)
+
+
+def twin_history_in_fresh_processes(run, pairs, scratch):
+    """'Regardless of what ran before in the process': configuration B traced in a fresh interpreter vs in a fresh
+    interpreter that first traced B's near twin A (same pipeline, + / * operands of the sweep expressions permuted)."""
+    import json
+    import subprocess
+    import sys
+
+    if not pairs:
+        return
+    spec = os.path.join(scratch, "twin-pairs.json")
+    with open(spec, "w", encoding="utf-8") as fh:
+        json.dump(pairs, fh, default=repr)
+    outs = {}
+    procs = []
+    for order in ("alone", "twin_first"):
+        outp = os.path.join(scratch, f"twin-{order}.json")
+        procs.append((order, outp, subprocess.Popen([sys.executable, "-c", CHILD_CODE.format(verif=boot.VERIF_DIR), spec, outp, order],
+                                                    env=boot.child_env({}), cwd=scratch, stdout=subprocess.PIPE, stderr=subprocess.STDOUT)))
+    for order, outp, p in procs:
+        try:
+            log, _ = p.communicate(timeout=300)
+        except subprocess.TimeoutExpired:
+            p.kill()
+            run.note_inconclusive("a near-twin child process timed out")
+            return
+        if not os.path.exists(outp):
+            run.count("near_twin_child_failed")
+            run.info["near_twin_child_log"] = (log or b"").decode("utf-8", "replace")[-400:]
+            return
+        with open(outp, encoding="utf-8") as fh:
+            outs[order] = json.load(fh)
+    for i, p in enumerate(pairs):
+        a, b = outs["alone"].get(str(i)), outs["twin_first"].get(str(i))
+        if a is None or b is None:
+            continue
+        run.count("near_twin_fresh_process_pairs")
+        if a != b:
+            diff = first_diff(a, b)
+            run.violation(f"trace_depends_on_near_twin_traced_before:{diff[0]}",
+                          f"the trace of a configuration differs between a fresh process and a fresh process that first traced its near twin "
+                          f"(sweep expression operands permuted), at {diff[1]}",
+                          {"nodes": p["nodes"], "twin": p["twin"], "ctx": p["ctx"], "data": p["data"], "detail": p["detail"], "difference": diff,
+                           "kind": "near_twin"})
+
+
+def launch_observational(run, g, scratch, k):
+    """A run-space launch through the CLI: untraced vs traced into ONE FILE vs traced into a DIRECTORY - same exit code,
+    same sink files.  (The lifecycle records of a launch go through driver code that single runs never touch.)"""
+    from vlib import cli
+
+    fail_at = [None, 1, None, 0][k % 4]
+    case = cli.launch_case(g, fail_at=fail_at, n_runs=g.rng.randint(2, 4))
+    outcomes = {}
+    for variant in ("untraced", "file", "dir"):
+        wd = tempfile.mkdtemp(prefix=f"launch-{variant}-", dir=scratch)
+        if variant == "untraced":
+            ypath = os.path.join(wd, "launch.yaml")
+            cli.write_yaml(ypath, case["nodes"], case.get("run_space"), None)
+            res = cli.run_cli(["run", ypath, "-q"], cwd=wd)
+        else:
+            res = cli.run_launch(case, wd, trace_mode=variant, detail=DETAILS[k % len(DETAILS)])["res"]
+        sinks = {}
+        for root, _d, files in os.walk(wd):
+            for f in files:
+                if f.endswith(".txt"):
+                    with open(os.path.join(root, f), encoding="utf-8", errors="replace") as fh:
+                        sinks[f] = fh.read()
+        outcomes[variant] = (res.rc, sinks)
+        shutil.rmtree(wd, ignore_errors=True)
+    run.count("launch_observational_triples")
+    for variant in ("file", "dir"):
+        if outcomes[variant] != outcomes["untraced"]:
+            run.violation(f"tracing_changes_launch_outcome:{variant}_output",
+                          f"run-space launch: untraced exit code / sink files {outcomes['untraced'][0]!r} / {sorted(outcomes['untraced'][1])} but traced "
+                          f"({variant} output) {outcomes[variant][0]!r} / {sorted(outcomes[variant][1])}",
+                          {"kind": "launch", "nodes": case["nodes"], "run_space": case["run_space"], "first_fail": case["first_fail"],
+                           "untraced": repr(outcomes["untraced"])[:400], "traced": repr(outcomes[variant])[:400], "output": variant})
+
+
 def run(run):
     boot.boot()
     from vlib import gen
@@ -357,6 +508,7 @@ def run(run):
     scratch = tempfile.mkdtemp(prefix="verif-c10-")
     g = gen.Gen(seed, scratch)
     hg = gen.Gen(seed + 17, scratch)
+    twin_pairs: list = []
     try:
         for i in range(N_CASES[run.tier]):
             case = g.pipeline(max_len=6, fault_bias=0.3) if i % 4 else gen.sweep_case(g)
@@ -373,11 +525,21 @@ def run(run):
                 run.count("cases_with_exotic_parameter_value")
             history = [hg.pipeline(max_len=4, fault_bias=0.2) for _ in range(g.rng.randint(1, 6 if run.tier == "quick" else 10))]
             details = [DETAILS[i % len(DETAILS)]] if run.tier == "quick" else DETAILS[:3]
+            if not case.get("one_shot") and not case.get("uses_rng") and len(twin_pairs) < 4 and not isinstance(case["data"], HFloat) \
+                    and _jsonable([case["nodes"], case["ctx"], case["data"]]):
+                tw = near_twin(case["nodes"], g)
+                if tw is not None:
+                    twin_pairs.append({"nodes": case["nodes"], "twin": tw, "data": case["data"], "detail": DETAILS[i % len(DETAILS)],
+                                       "ctx": {k: (list(v) if isinstance(v, tuple) else v) for k, v in case["ctx"].items()}})
             for detail in details:
                 check_case(run, case, detail, history, g, scratch)
                 run.case(canon_hash([case["nodes"], repr(case["ctx"]), case["data"], detail]), len(case["nodes"]) >= 2,
                          sample={"nodes": case["nodes"], "ctx": repr(case["ctx"]), "data": case["data"], "detail": detail, "history": len(history)}
                          if run.evaluations < 3 else None)
+        if run.shard[0] % 4 == 0:
+            twin_history_in_fresh_processes(run, twin_pairs, scratch)
+        for k in range(2):
+            launch_observational(run, g, scratch, k + 2 * run.shard[0])
         run.count("hostile_hook_calls", Hostile.calls)
         run.count("hfloat_repr_calls", HFloat.reprs)
     finally:
@@ -397,6 +559,11 @@ def replay(run, witness):
     scratch = tempfile.mkdtemp(prefix="verif-c10-")
     try:
         g = gen.Gen(run.seed, scratch)
+        if witness.get("kind") == "near_twin":
+            twin_history_in_fresh_processes(run, [{k: witness[k] for k in ("nodes", "twin", "ctx", "data", "detail")}], scratch)
+            run.case(witness["nodes"], True, sample=witness["nodes"])
+            run.case("replay-second-slot", True)
+            return
         case = {"nodes": witness["nodes"], "data": witness["data"],
                 "ctx": {k: (tuple(v) if isinstance(v, list) and v and v[0] in ("__hostile__", "__iter__") else v) for k, v in witness["ctx"].items()},
                 "one_shot": witness.get("one_shot", False), "uses_rng": witness.get("uses_rng", False)}
